@@ -5,12 +5,11 @@ use crate::{
     cc::AnyEndpoint,
     net::{Injector, Net},
     params::*,
-    taps::{CcEndpoint, Random, Rewriter, SharedDbg, Sub, Tap},
+    taps::{CcEndpoint, Random, Rewriter, SharedDbg, SrtGen, Sub, Tap},
     tlswrap::{Rewrite, TlsWrap},
     world::*,
 };
 use bytes::Bytes;
-use futures::future::{select, Either};
 use s2n_quic::{
     client::Connect,
     connection::Handle,
@@ -43,7 +42,13 @@ pub struct Extras {
     pub client_unobserved: bool,
     pub server_tp_rewrite: Option<Rewrite>,
     pub client_tp_rewrite: Option<Rewrite>,
+    /// raw datagrams fired at the server from sockets that belong to no connection:
+    /// (virtual time in us, bytes); each uses its own source port (C11)
+    pub probes: Vec<(u64, Vec<u8>)>,
 }
+
+/// endpoint ids of the raw probing sockets start here
+pub const PROBER_BASE: EpId = 1000;
 
 struct Retry(bool);
 impl endpoint_limits::Limiter for Retry {
@@ -205,6 +210,8 @@ pub fn build_server(
         .unwrap()
         .with_endpoint_limits(Retry(p.retry))
         .unwrap()
+        .with_stateless_reset_token(SrtGen(c.seed ^ 0x5157))
+        .unwrap()
         .start()
         .unwrap()
 }
@@ -258,6 +265,8 @@ pub fn build_client(
         })
         .unwrap()
         .with_connection_id(cid_format(c))
+        .unwrap()
+        .with_stateless_reset_token(SrtGen(c.seed ^ 0x5157))
         .unwrap()
         .start()
         .unwrap()
@@ -313,7 +322,13 @@ fn stream_err(e: &s2n_quic::stream::Error) -> (String, Option<u64>) {
     }
 }
 
-async fn sender(cx: AppCx, ep: EpId, key: FlowKey, plan: FlowPlan, mut s: SendStream) {
+async fn sender(cx: AppCx, ep: EpId, key: FlowKey, plan: FlowPlan, s: SendStream) {
+    cx.op(ep, AppOp::TaskStart { flow: key, sender: true });
+    sender_inner(cx.clone(), ep, key, plan, s).await;
+    cx.op(ep, AppOp::TaskEnd { flow: key, sender: true });
+}
+
+async fn sender_inner(cx: AppCx, ep: EpId, key: FlowKey, plan: FlowPlan, mut s: SendStream) {
     let prf = key.prf_key(cx.seed);
     let mut rng = Rng::new(vq_util::mix(prf, 7));
     let mut off = 0u64;
@@ -405,7 +420,13 @@ async fn sender(cx: AppCx, ep: EpId, key: FlowKey, plan: FlowPlan, mut s: SendSt
     }
 }
 
-async fn receiver(cx: AppCx, ep: EpId, key: FlowKey, plan: FlowPlan, mut r: ReceiveStream) {
+async fn receiver(cx: AppCx, ep: EpId, key: FlowKey, plan: FlowPlan, r: ReceiveStream) {
+    cx.op(ep, AppOp::TaskStart { flow: key, sender: false });
+    receiver_inner(cx.clone(), ep, key, plan, r).await;
+    cx.op(ep, AppOp::TaskEnd { flow: key, sender: false });
+}
+
+async fn receiver_inner(cx: AppCx, ep: EpId, key: FlowKey, plan: FlowPlan, mut r: ReceiveStream) {
     let mut off = 0u64;
     let mut chunks_seen = 0u32;
     cx.op(ep, AppOp::RecvBegin { flow: key });
@@ -508,6 +529,7 @@ async fn opener(cx: AppCx, ep: EpId, client: EpId, mut h: Handle, plan: StreamPl
     if plan.open_delay_us > 0 {
         delay(Duration::from_micros(plan.open_delay_us)).await;
     }
+    cx.op(ep, AppOp::OpenBegin);
     if plan.bidi {
         match h.open_bidirectional_stream().await {
             Ok(s) => {
@@ -614,6 +636,7 @@ async fn client_main(cx: AppCx, ep: EpId, client: Client, plan: ClientPlan, addr
         delay(Duration::from_micros(plan.start_delay_us)).await;
     }
     let connect = Connect::new(addr).with_server_name("localhost");
+    cx.op(ep, AppOp::ConnectBegin);
     let mut conn = match client.connect(connect).await {
         Ok(c) => c,
         Err(e) => {
@@ -690,8 +713,32 @@ pub fn setup(handle: &IoHandle, p: Arc<Params>, w: Shared, mut ex: Extras) {
             }
         });
     }
+    if !ex.probes.is_empty() {
+        let probes = std::mem::take(&mut ex.probes);
+        let handle = handle.clone();
+        let w = w.clone();
+        w.lock().unwrap().ctx.clients_running += 1;
+        spawn(async move {
+            let mut sockets = Vec::new();
+            for (i, (at, bytes)) in probes.into_iter().enumerate() {
+                let now = now_us();
+                if at > now {
+                    delay(Duration::from_micros(at - now)).await;
+                }
+                let socket = handle.builder().build().unwrap().socket();
+                let port = socket.local_addr().unwrap().port();
+                w.lock().unwrap().ctx.port_to_ep.insert(port, PROBER_BASE + i);
+                let _ = socket.send_to(addr, Default::default(), bytes);
+                sockets.push(socket);
+            }
+            // give the server time to (not) answer
+            delay(Duration::from_millis(500)).await;
+            w.lock().unwrap().ctx.clients_running -= 1;
+            drop(sockets);
+        });
+    }
     let n = p.clients.len();
-    w.lock().unwrap().ctx.clients_running = n;
+    w.lock().unwrap().ctx.clients_running += n;
     for i in 0..n {
         let ep = i + 1;
         let (rw, obs, tp) = if i == 0 {
